@@ -867,6 +867,12 @@ type c14tTxMeta struct {
 	badMsgUTF8  bool
 	sigLenOK    bool
 	desc        string
+	// signing facts BY CONSTRUCTION (never read back from /repo's recovery): who signed, in order
+	reimb        bool
+	sigKeys      []*ecdsa.PrivateKey // sender signatures appended by SignTx, in order
+	payerKeys    []*ecdsa.PrivateKey // gas payer signatures, in order
+	senderTamper string              // "" = signatures intact; otherwise why recovery must NOT give sigKeys
+	payerTamper  string
 }
 
 var c14tTxTypes = []uint16{params.OrdinaryTx, params.CreateContractTx, params.VoteTx, params.RegisterTx, params.CreateAssetTx,
@@ -1060,6 +1066,7 @@ func (t *c14tState) genTx(allowBox bool) (*types.Transaction, *c14tTxMeta) {
 	if reimb {
 		signer = types.MakeReimbursementTxSigner()
 	}
+	meta.reimb = reimb
 	for i := 0; i < nsig; i++ {
 		key := t.keys[t.rn(len(t.keys))]
 		err, pan := c14tTry(func() error {
@@ -1071,6 +1078,8 @@ func (t *c14tState) genTx(allowBox bool) (*types.Transaction, *c14tTxMeta) {
 		})
 		if err != nil || pan != "" {
 			t.c.Count("info:tx-sign-failed")
+		} else {
+			meta.sigKeys = append(meta.sigKeys, key)
 		}
 	}
 	if reimb {
@@ -1086,13 +1095,15 @@ func (t *c14tState) genTx(allowBox bool) (*types.Transaction, *c14tTxMeta) {
 		meta.labels = append(meta.labels, fmt.Sprintf("payersigs=%d", np))
 		for i := 0; i < np; i++ {
 			key := t.keys[t.rn(len(t.keys))]
-			_, _ = c14tTry(func() error {
+			if err, pan := c14tTry(func() error {
 				n, e := types.MakeGasPayerSigner().SignTx(tx, key)
 				if e == nil {
 					tx = n
 				}
 				return e
-			})
+			}); err == nil && pan == "" {
+				meta.payerKeys = append(meta.payerKeys, key)
+			}
 		}
 	}
 	if t.rn(3) == 0 {
@@ -1142,7 +1153,96 @@ func (t *c14tState) craftTx(tx *types.Transaction, meta *c14tTxMeta) *types.Tran
 		t.c.Count("info:tx-craft-rejected")
 		return tx
 	}
+	switch k {
+	case 0:
+		meta.senderTamper = "the GasPayer field (part of the signed hash) was changed after signing"
+	case 1:
+		meta.senderTamper = "the sender signatures were replaced by random 65-byte strings"
+		meta.payerTamper = "the sender signatures (part of the gas payer's signed hash) were replaced after signing"
+	case 2:
+		meta.senderTamper = "the sender signatures were replaced by random strings of any length"
+		meta.payerTamper = "the gas payer signatures were replaced by a random string"
+	}
 	return n
+}
+
+// keyAddr: the account of a signing key, from the key itself (crypto.PubkeyToAddress), not from a recovery.
+func c14tKeyAddr(k *ecdsa.PrivateKey) common.Address { return crypto.PubkeyToAddress(k.PublicKey) }
+
+// checkFedSigners compares what /repo recovers with WHO SIGNED according to the generator, position by position.
+// Intact signatures: exactly the signing keys, in order (no signature at all: an error). Tampered / garbage
+// signatures: no recovery, or signers that are not the original ones at any position.
+func (t *c14tState) checkFedSigners(stage string, tx *types.Transaction, meta *c14tTxMeta, encHex string) {
+	all := map[common.Address]bool{}
+	for _, k := range t.keys {
+		all[c14tKeyAddr(k)] = true
+	}
+	one := func(role string, s types.Signer, keys []*ecdsa.PrivateKey, tamper string) {
+		var got []common.Address
+		err, pan := c14tTry(func() error {
+			var e error
+			got, e = s.GetSigners(tx)
+			return e
+		})
+		var want []common.Address
+		for _, k := range keys {
+			want = append(want, c14tKeyAddr(k))
+		}
+		show := func(as []common.Address) string {
+			var l []string
+			for _, a := range as {
+				l = append(l, a.Hex())
+			}
+			return "[" + strings.Join(l, ",") + "]"
+		}
+		bad := ""
+		switch {
+		case pan != "":
+			bad = "GetSigners panics: " + pan
+		case tamper == "" && len(want) == 0:
+			if err == nil {
+				bad = "no signature was made but GetSigners returns " + show(got)
+			}
+		case tamper == "":
+			if err != nil {
+				bad = "GetSigners fails (" + err.Error() + ") although the tx carries " + fmt.Sprint(len(want)) + " genuine signatures"
+			} else if len(got) != len(want) {
+				bad = "recovered " + show(got) + ", signed by " + show(want)
+			} else {
+				for i := range want {
+					if got[i] != want[i] {
+						bad = fmt.Sprintf("position %d: recovered %s, signed by %s (recovered %s, signers %s)", i, got[i].Hex(), want[i].Hex(), show(got), show(want))
+						break
+					}
+				}
+			}
+		default:
+			if err == nil {
+				for i := range got {
+					if (i < len(want) && got[i] == want[i]) || (strings.Contains(tamper, "random") && all[got[i]]) {
+						bad = fmt.Sprintf("%s, yet position %d still recovers the generator's key %s", tamper, i, got[i].Hex())
+						break
+					}
+				}
+			}
+		}
+		cl := "intact"
+		if tamper != "" {
+			cl = "tampered"
+		}
+		t.c.Count(fmt.Sprintf("typed:tx:fed-signers:%s:%s:%s:n=%d", stage, role, cl, len(want)))
+		if bad != "" {
+			t.fail("c14/fed-fact/signers", stage+" "+role+": "+bad+"; tx "+c14tTxString(tx), encHex)
+		}
+	}
+	var sender types.Signer = types.MakeSigner()
+	if meta.reimb {
+		sender = types.MakeReimbursementTxSigner()
+	}
+	one("sender", sender, meta.sigKeys, meta.senderTamper)
+	if meta.reimb {
+		one("gaspayer", types.MakeGasPayerSigner(), meta.payerKeys, meta.payerTamper)
+	}
 }
 
 func c14tSigners(s types.Signer, tx *types.Transaction) string {
@@ -1914,8 +2014,10 @@ func (t *c14tState) caseTx() {
 	enc, dec, ok := t.roundTrip(c14tFamTx, "", tx, desc)
 	h0 := c14tTxHash(tx)
 	s0 := c14tAllSigners(tx)
+	t.checkFedSigners("before", tx, meta, c14tHex(enc))
 	if ok {
 		d := dec.(*types.Transaction)
+		t.checkFedSigners("after-rlp", d, meta, c14tHex(enc))
 		if h1 := c14tTxHash(d); h1 != h0 || strings.HasPrefix(h0, "panic") {
 			t.fail("c14/tx-hash", "Hash() "+h0+" -> "+h1+"; tx "+c14tStr(desc), c14tHex(enc))
 		}
@@ -1970,6 +2072,9 @@ func (t *c14tState) caseTx() {
 				} else {
 					t.fail(c14tJSONSig(meta.badMsgUTF8, "tx-json-hash"), "Hash() "+h0+" -> "+hj+" after JSON round trip"+bad+"; tx "+c14tStr(desc), string(js))
 				}
+			}
+			if !meta.badMsgUTF8 && !meta.badNameUTF8 {
+				t.checkFedSigners("after-json", j, meta, c14tHex(enc))
 			}
 			if sj := c14tAllSigners(j); sj != s0 {
 				if nameOnly {
